@@ -9,6 +9,8 @@ every theorem (`run … = some o`), `C08_no_spin` gives the bound in closed form
 Tie: correspondence harness harness/cmd/c08 (real providers, public constructors) + `Pandora.Drv.C08`.
 -/
 import Pandora.Proofs.C08Run
+import Pandora.Proofs.C08Conc
+import Pandora.Bridge.ProvLoops
 import Pandora.Drv.C08
 
 namespace Pandora.Props.C08
@@ -145,7 +147,7 @@ theorem C08_spec_holds (k : Kind) (preload : Bool) (limit passes n cap : Nat) (h
     have hl : o.delivered.length = cap := by rw [h2]; simp [cyc]
     rw [h1]
     rcases h3 with h3 | h3 <;>
-      simp [Drv.C08.obsOf, Spec.C08.holds, Spec.C08.countOk, Spec.C08.want, Spec.C08.bounded, hE, hl, hcap,
+      simp [Drv.C08.obsOf, Spec.C08.holds, Spec.C08.countOk, Spec.C08.want, Spec.C08.wantCut, Spec.C08.bounded, hE, hl, hcap,
         Spec.C08.returnsOk, Spec.C08.runOk, Spec.C08.endOk, Spec.C08.spinOk, h3, h4, Drv.C08.classOf]
   | some m =>
     have hlt := hbig m hE
@@ -162,9 +164,169 @@ theorem C08_spec_holds (k : Kind) (preload : Bool) (limit passes n cap : Nat) (h
       · simp [hmin] at h; omega
     rw [h1]
     have hnc : ¬ cap ≤ m := by omega
-    simp [Drv.C08.obsOf, Spec.C08.holds, Spec.C08.countOk, Spec.C08.want, Spec.C08.bounded, hE, hl, hnc,
+    have hc0 : cap ≠ 0 := by omega
+    simp [Drv.C08.obsOf, Spec.C08.holds, Spec.C08.countOk, Spec.C08.want, Spec.C08.wantCut, Spec.C08.bounded, hE, hl, hnc,
       Spec.C08.returnsOk, Spec.C08.runOk, Spec.C08.endOk, Spec.C08.spinOk, hnil, h4, Drv.C08.classOf,
-      Spec.C08.opsBound]
+      Spec.C08.opsBound, hc0, hmin]
+
+/-! ## every interleaving: provider ∥ channel ∥ consumers ∥ cancel  (`Model.C08Mach`)
+
+`reach inp n cons ls` is the state after the schedule `ls` (ANY list of labels: loop iterations of `Run`, the two
+outcomes of its send `select`, receives and end-of-ammo observations of each of the `cons` consumers, a cancel at
+any position; labels that are not enabled are skipped).  The channel has the capacity the constructor of the kind
+gives it.  No fairness is assumed: consumers may stop acquiring at any time (instances whose schedule is over). -/
+
+theorem cycl_eq_cyc (n m : Nat) : cycl n m = cyc n m := rfl
+
+theorem expected_of_atBound (b : Bounds) (n k : Nat) (hn : 0 < n) (h : AtBound b n k) :
+    Spec.C08.expected b.limit b.passes n = some k := by
+  obtain ⟨⟨h1, h2⟩, h3⟩ := h
+  unfold Spec.C08.expected
+  cases hl : b.limit with
+  | zero =>
+    cases hp : b.passes with
+    | zero => rcases h3 with ⟨h0, _⟩ | ⟨h0, _⟩ <;> omega
+    | succ p =>
+      rcases h3 with ⟨h0, _⟩ | ⟨_, h0⟩
+      · omega
+      · simp [h0, hp]
+  | succ l =>
+    cases hp : b.passes with
+    | zero =>
+      rcases h3 with ⟨_, h0⟩ | ⟨h0, _⟩
+      · simp [h0, hl]
+      · omega
+    | succ p =>
+      simp only [Option.some.injEq]
+      rw [hl] at h1 h3; rw [hp] at h2 h3
+      rcases h3 with ⟨_, h0⟩ | ⟨_, h0⟩ <;> rcases h1 with h1 | h1 <;> rcases h2 with h2 | h2 <;> omega
+
+theorem atBound_of_expected (b : Bounds) (n m : Nat) (hn : 0 < n) (h : Spec.C08.expected b.limit b.passes n = some m) :
+    AtBound b n m := by
+  rw [expected_eq_target _ _ _ hn] at h
+  exact atBound_of_target b n m hn h
+
+/-- **never too many, always in file order** — in every interleaving the ammo acquired so far followed by those in
+the channel are the first `sent` entries of the cyclic file, `sent` never exceeds `min⁺(limit, passes·n)`, and the
+channel never holds more than its capacity. -/
+theorem C08_conc_prefix (inp : Input) (n cons : Nat) (hn : 0 < n) (ls : List Label) :
+    (reach inp n cons ls).acquired ++ (reach inp n cons ls).buf = cyc n (reach inp n cons ls).sent ∧
+    (∀ m, Spec.C08.expected inp.b.limit inp.b.passes n = some m → (reach inp n cons ls).sent ≤ m) ∧
+    (reach inp n cons ls).buf.length ≤ inp.kind.chanCap := by
+  have hi := sysInv_reach inp n cons hn ls
+  refine ⟨hi.seq, ?_, hi.bufcap⟩
+  intro m hm
+  obtain ⟨_, h3⟩ := atBound_of_expected inp.b n m hn hm
+  obtain ⟨h1, h2⟩ := hi.below
+  rcases h3 with ⟨h0, h4⟩ | ⟨h0, h4⟩
+  · rcases h1 with h1 | h1 <;> omega
+  · rcases h2 with h2 | h2 <;> omega
+
+/-- **clean end** — whenever `Run` has returned, in whatever interleaving: the sink is closed, the result is nil —
+or context.Canceled, only if the context was cancelled — and a run that nobody cancelled has sent exactly
+`min⁺(limit, passes·n)` ammo (so an unbounded run returns only when it is cancelled). -/
+theorem C08_conc_clean_end (inp : Input) (n cons : Nat) (hn : 0 < n) (ls : List Label) (r : RunRes)
+    (h : (reach inp n cons ls).result = some r) :
+    (reach inp n cons ls).closed = true ∧
+    (r = .nil ∨ ((reach inp n cons ls).cancelled = true ∧ r = .canceled)) ∧
+    ((reach inp n cons ls).cancelled = false →
+      r = .nil ∧ Spec.C08.expected inp.b.limit inp.b.passes n = some (reach inp n cons ls).sent) := by
+  have hi := sysInv_reach inp n cons hn ls
+  obtain ⟨h1, _, h3⟩ := hi.returned r h
+  refine ⟨h1, ?_, ?_⟩
+  · rcases h3 with ⟨h3, _⟩ | ⟨hc, h3 | h3⟩
+    · exact Or.inl h3
+    · exact Or.inr ⟨hc, h3⟩
+    · unfold doneResOf at h3
+      split at h3
+      · exact Or.inr ⟨hc, h3⟩
+      · exact Or.inl h3
+  · intro hnc
+    rcases h3 with ⟨h3, h4⟩ | ⟨hc, _⟩
+    · exact ⟨h3, expected_of_atBound _ _ _ hn h4⟩
+    · rw [hnc] at hc; cases hc
+
+/-- **the sink is closed exactly when `Run` has returned**, and consumers see the end only then -/
+theorem C08_conc_closed_iff (inp : Input) (n cons : Nat) (hn : 0 < n) (ls : List Label) :
+    ((reach inp n cons ls).closed = true ↔ (reach inp n cons ls).result.isSome = true) ∧
+    ((reach inp n cons ls).ended ≠ [] → (reach inp n cons ls).closed = true ∧ (reach inp n cons ls).buf = []) := by
+  have hi := sysInv_reach inp n cons hn ls
+  refine ⟨?_, hi.ended⟩
+  cases hr : (reach inp n cons ls).result with
+  | none => simp [(hi.running hr).1]
+  | some r => simp [(hi.returned r hr).1]
+
+/-- **no consumer stays blocked** — once `Run` has returned every consumer that has not yet seen the end of ammo can
+complete its Acquire at once: with an ammo that was still in the channel, or with `ok=false`. -/
+theorem C08_conc_consumers_released (inp : Input) (n cons : Nat) (hn : 0 < n) (ls : List Label)
+    (h : (reach inp n cons ls).result.isSome = true) (c : Nat) (hc : c < cons) (hne : c ∉ (reach inp n cons ls).ended) :
+    ((reach inp n cons ls).next inp n inp.kind.chanCap cons (.recv c)).isSome = true ∨
+    ((reach inp n cons ls).next inp n inp.kind.chanCap cons (.eoa c)).isSome = true := by
+  have hi := sysInv_reach inp n cons hn ls
+  have hcl := ((C08_conc_closed_iff inp n cons hn ls).1).mpr h
+  cases hb : (reach inp n cons ls).buf with
+  | nil => right; simp [Sys.next, hcl, hb, hc, hne]
+  | cons i rest => left; simp [Sys.next, hb, hc, hne]
+
+/-- **returns promptly, needs nobody, does not spin** — from any reachable state in which the context is cancelled
+or the bound `min⁺(limit, passes·n)` has been sent, `Run` on its own (nobody receives, nothing else happens) has
+returned after at most 3 of its own steps: loop iterations or the Done branch of its select. -/
+theorem C08_conc_returns (inp : Input) (n cons : Nat) (hn : 0 < n) (ls : List Label)
+    (hres : (reach inp n cons ls).result = none)
+    (hstop : (reach inp n cons ls).cancelled = true ∨
+      Spec.C08.expected inp.b.limit inp.b.passes n = some (reach inp n cons ls).sent) :
+    (ownRun inp n inp.kind.chanCap cons 3 (reach inp n cons ls)).result.isSome = true := by
+  have hi := sysInv_reach inp n cons hn ls
+  exact returns_alone inp n _ cons hn 1 _ hi hres (hstop.imp id (atBound_of_expected _ _ _ hn)) (tauBudget_le_one n _)
+
+theorem run_append (inp : Input) (n cap cons : Nat) (s : Sys) (l1 l2 : List Label) :
+    s.run inp n cap cons (l1 ++ l2) = (s.run inp n cap cons l1).run inp n cap cons l2 := by
+  simp [Sys.run, List.foldl_append]
+
+/-- **a cancel stops the providers that read ctx.Err() in their loop** (http with and without preload, scenario):
+whatever happens after the cancel, at most the one ammo that was already in the send `select` is still sent. -/
+theorem C08_conc_cancel_stops (inp : Input) (n cons : Nat) (hn : 0 < n) (ht : inp.kind.ctxTop = true)
+    (ls ls' : List Label) :
+    (reach inp n cons (ls ++ Label.cancel :: ls')).sent ≤ (reach inp n cons ls).sent + 1 := by
+  have hi := sysInv_reach inp n cons hn ls
+  have hrun : reach inp n cons (ls ++ Label.cancel :: ls') =
+      Sys.run inp n inp.kind.chanCap cons { (reach inp n cons ls) with cancelled := true } ls' := by
+    unfold reach; rw [run_append, run_cons]; rfl
+  rw [hrun]
+  generalize reach inp n cons ls = s at hi ⊢
+  have hi' : SysInv inp n inp.kind.chanCap { s with cancelled := true } :=
+    sysInv_next inp n _ cons hn s _ .cancel hi rfl
+  have h := pot_run_cancelled inp n inp.kind.chanCap cons hn ht ls' _ hi' rfl
+  have h1 : pot { s with cancelled := true } ≤ s.sent + 1 := by
+    simp only [pot, Sys.sent]; split <;> omega
+  have h2 : ∀ t : Sys, t.sent ≤ pot t := fun t => Nat.le_add_right _ _
+  exact Nat.le_trans (h2 _) (Nat.le_trans h h1)
+
+/-- **exactly `min⁺(limit, passes·n)`, and everybody sees the end** — no deadlock: a reachable state in which
+nothing but a cancel can happen any more (at least one consumer) is one in which `Run` has returned, the channel is
+drained, EVERY consumer has seen `ok=false`, and the acquired ammo are the first entries of the cyclic file in order
+— exactly `min⁺(limit, passes·n)` of them, with `Run` = nil, if nobody cancelled. -/
+theorem C08_conc_complete (inp : Input) (n cons : Nat) (hn : 0 < n) (hc : 0 < cons) (ls : List Label)
+    (hstuck : ∀ l, l ≠ Label.cancel → (reach inp n cons ls).next inp n inp.kind.chanCap cons l = none) :
+    (∀ c, c < cons → c ∈ (reach inp n cons ls).ended) ∧
+    (reach inp n cons ls).acquired = cyc n (reach inp n cons ls).acquired.length ∧
+    ((reach inp n cons ls).cancelled = false →
+      (reach inp n cons ls).result = some .nil ∧
+      Spec.C08.expected inp.b.limit inp.b.passes n = some (reach inp n cons ls).acquired.length) := by
+  have hi := sysInv_reach inp n cons hn ls
+  obtain ⟨hr, hb, he⟩ := no_deadlock inp n _ cons _ hi hc hstuck
+  have hsent : (reach inp n cons ls).sent = (reach inp n cons ls).acquired.length := by
+    simp [Sys.sent, Sys.acquired, hb]
+  refine ⟨he, ?_, ?_⟩
+  · have := hi.seq
+    rw [hb, List.append_nil, hsent] at this
+    exact this
+  · intro hnc
+    obtain ⟨r, hr'⟩ := Option.isSome_iff_exists.mp hr
+    obtain ⟨_, _, h3⟩ := C08_conc_clean_end inp n cons hn ls r hr'
+    obtain ⟨h4, h5⟩ := h3 hnc
+    rw [hsent] at h5
+    exact ⟨by rw [hr', h4], h5⟩
 
 /-! non-vacuity: concrete cells, evaluated by the kernel -/
 example : (run ⟨.jsonArray, false, ⟨0, 1⟩, none⟩ 1).map (·.delivered) = some [0] := by decide
@@ -174,5 +336,20 @@ example : (run ⟨.httpScenario, false, ⟨2, 0⟩, none⟩ 3).map (fun o => (o.
 example : (run ⟨.genericJson, false, ⟨5, 2⟩, none⟩ 2).map (·.delivered) = some [0, 1, 0, 1] := by decide
 example : (run ⟨.raw, false, ⟨0, 0⟩, some 7⟩ 3).map (fun o => (o.delivered, o.run)) = some ([0, 1, 2, 0, 1, 2, 0], .canceled) := by decide
 example : Spec.C08.expected 2 1 3 = some 2 ∧ target 2 1 3 none = some 2 := by decide
+-- interleavings: two consumers of a preloaded uri provider with limit 3 (unbuffered channel) …
+example : let s := reach ⟨.uri, true, ⟨3, 0⟩, none⟩ 2 2 [.prod, .prod, .hand 1, .prod, .hand 0, .prod, .hand 1, .prod, .eoa 0, .eoa 1]
+    (s.acquired, s.log.map (·.1), s.result, s.closed, s.ended) = ([0, 1, 0], [1, 0, 1], some .nil, true, [1, 0]) := by decide
+-- … that state is stuck (hypothesis of C08_conc_complete)
+example : ∀ l ∈ [Label.prod, .push, .hand 0, .hand 1, .done, .recv 0, .recv 1, .eoa 0, .eoa 1],
+    ((reach ⟨.uri, true, ⟨3, 0⟩, none⟩ 2 2 [.prod, .prod, .hand 1, .prod, .hand 0, .prod, .hand 1, .prod, .eoa 0, .eoa 1]).next
+      ⟨.uri, true, ⟨3, 0⟩, none⟩ 2 0 2 l).isNone = true := by decide
+-- grpc/json (buffer 128), unbounded, cancelled while its buffer holds two ammo and nobody receives: Done branch, nil, closed
+example : let s := reach ⟨.grpcJson, false, ⟨0, 0⟩, none⟩ 2 1 [.prod, .push, .prod, .push, .prod, .prod, .cancel, .done, .recv 0]
+    (s.acquired, s.buf, s.result, s.closed, s.cancelled) = ([0], [1], some .nil, true, true) := by decide
+-- hypotheses of C08_conc_returns: cancelled in the select / bound reached, not yet returned
+example : let s := reach ⟨.httpScenario, false, ⟨0, 0⟩, none⟩ 3 1 [.prod, .push, .prod, .cancel]
+    (s.result, s.cancelled, s.offering.isSome) = (none, true, true) := by decide
+example : let s := reach ⟨.genericJson, false, ⟨0, 1⟩, none⟩ 2 1 [.prod, .push, .prod, .push]
+    (s.result, Spec.C08.expected 0 1 2 == some s.sent) = (none, true) := by decide
 
 end Pandora.Props.C08
